@@ -25,7 +25,10 @@ class Inst:
         self.frozen = None      # name of a counter global that a killed background script incremented
 
 
-def gen_history(rng, hid):
+RECURSIVE_MACRO = '#define A(x) A(x)\nA(1)'
+
+
+def gen_history(rng, hid, avoid=()):
     """returns (steps, expectations); expectation = dict describing how to judge that step's result"""
     steps, exps = [], []
     insts = []
@@ -133,7 +136,10 @@ def gen_history(rng, hid):
         elif k < 0.98:
             add({'op': 'api_status', 'h': inst.h}, {'kind': 'status', 'ret': 0})
         else:
-            call(inst, rng.choice(HOSTILE), {'kind': 'hostile'})
+            h = rng.choice(HOSTILE)
+            if h == RECURSIVE_MACRO and 'api-recursive-macro' in avoid:
+                h = '#define A(x) B(x)\nA(1)'
+            call(inst, h, {'kind': 'hostile'})
     # closing reads: everything the model believes is visible, per instance
     for inst in insts:
         src, want = read_expr(inst)
@@ -230,12 +236,13 @@ ASM_INPUTS = ['push 1', 'push 1;', ';', 'push "a"\nassignTo "gq"\nendStatement',
 def main(tier):
     chk = core.Check(PROP, 'exploration', tier)
     runner = core.Runner('asan')
+    avoid = {e['avoid'] for e in chk.findings.open if e.get('avoid')}
     n = 500 if tier == 'quick' else 12000
     hist = []
     items = []
     for i in range(n):
         rng = core.rng('c18', i)
-        steps, exps = gen_history(rng, i)
+        steps, exps = gen_history(rng, i, avoid)
         hist.append((steps, exps))
         items.append([{'op': 'api_reset'}, {'op': 'clock_delta', 'ns': 1000}] + steps)
     results = core.run_items(runner, [], items, batch=6, base_cpu_ms=6000, item_cpu_ms=lambda it: 2500 * sum(1 for s in it if s['op'] == 'api_create') + 150 * len(it) + 6000 * sum(1 for s in it if 'spawn { while' in s.get('code', '') or '100000000' in s.get('code', '')), counters=chk.counters, max_deaths=30)
@@ -256,7 +263,14 @@ def main(tier):
     for code in ASM_INPUTS:
         cases.append({'steps': [{'op': 'api_create', 'h': 1, 'kind': 'basic', 'max_s': 0.05, 'user': 5}, {'op': 'api_call', 'h': 1, 'type': 'a', 'code': code, 'call_data': 9},
                                 {'op': 'api_call', 'h': 1, 'type': 's', 'code': 'diag_log str ["alive"]', 'call_data': 10}], 'cpu_ms': 4000, 'journal_steps': True})
+    cases.append({'steps': [{'op': 'api_create', 'h': 1, 'kind': 'basic', 'max_s': 0.05, 'user': 5}, {'op': 'api_call', 'h': 1, 'type': 's', 'code': RECURSIVE_MACRO, 'call_data': 9}], 'cpu_ms': 20000, 'journal_steps': True})
     res = runner.run(cases, retry_timeouts=False)
+    r = res.pop()
+    chk.evaluations += 1
+    if isinstance(r, core.Death):
+        chk.death_is_violation(r, 'sqfvm_call with a self-recursive macro', {'code': RECURSIVE_MACRO}, sig_prefix='api|recursive-macro', sig_suffix='api-probe')
+    elif r['res'][1]['ret'] != -2:
+        chk.violation('recursive-macro-ret', 'self-recursive macro returned %d (documented -2: preprocessing failed)' % r['res'][1]['ret'], {'code': RECURSIVE_MACRO})
     for code, r in zip(ASM_INPUTS, res):
         chk.evaluations += 1
         chk.count('assembly_calls')
